@@ -184,9 +184,13 @@ func vh_C11_L2_credit_across_streams() {
 func vh_C11_L5_window_follows_buffer() {
 	buf := nondetU32()
 	vassume(buf >= 1)
+	want := getMaxTSNOffset(buf)
+	vassert(want >= minTSNOffset && want <= maxTSNOffset, "the tracking window stays between its fixed limits whatever the receive buffer size")
+	if want > maxTSNOffset {
+		return
+	}
 	cfg := &Config{NetConn: &vConn{}, LoggerFactory: vLoggerFactory{}, Name: "v", MaxReceiveBufferSize: buf}
 	a := createAssociationFromConfigWithTsn(cfg, nondetU32())
-	want := getMaxTSNOffset(buf)
 	vassert(a.payloadQueue.maxTSNOffset >= want && a.payloadQueue.maxTSNOffset < want+64, "the tracking window is the one computed from the configured receive buffer")
 	vassert(a.maxReceiveBufferSize == buf && a.getMyReceiverWindowCredit() == buf, "and the advertised credit starts at the configured buffer")
 	vobserve("win", uint64(a.payloadQueue.maxTSNOffset))
@@ -221,3 +225,9 @@ func vh_C11_L2_skip_purges_ordered_and_unordered_of_one_stream() {
 // C11.L1c: reading a complete message that a skip has overtaken releases everything it held,
 // index entries included (= C07.L3, which ends with that assertion).
 func vh_C11_L1_read_below_skip_point_releases_everything() { vh_C07_L3_receiver_skip_exact() }
+
+// C11.L2d: an I-FORWARD-TSN purges the ordered and the unordered abandoned message of one
+// stream (both entries survive the codec, = C07.L2b / C12.L1).
+func vh_C11_L2_iforward_tsn_keeps_ordered_and_unordered_apart() {
+	vh_C07_L2_iforward_tsn_ordered_and_unordered_entries()
+}
